@@ -7,6 +7,7 @@ import (
 	"encoding/json"
 	"errors"
 	"fmt"
+	"sort"
 	"sync"
 
 	"github.com/LiskHQ/lisk-engine/pkg/blockchain"
@@ -134,7 +135,11 @@ func (a *ABI) record(name string) error {
 	return nil
 }
 
-func hashAssets(assets []*blockchain.BlockAsset) []byte {
+// hashAssets: the application state depends on the assets a block carries, not on the order in
+// which InsertAssets happened to list them (a block carries them sorted by module).
+func hashAssets(in []*blockchain.BlockAsset) []byte {
+	assets := append([]*blockchain.BlockAsset{}, in...)
+	sort.SliceStable(assets, func(i, j int) bool { return assets[i].Module < assets[j].Module })
 	h := sha256.New()
 	for _, as := range assets {
 		h.Write(as.Encode())
